@@ -18,7 +18,7 @@ import ast
 import re
 
 from .astutil import unparse
-from .memo_rule import anchored_files
+from .memo_rule import lint_files
 from .report import Finding, Report
 from .srcindex import AnalysisError, Index
 
@@ -93,7 +93,7 @@ def check(idx: Index, rep: Report, prop: str) -> None:
         raise AnalysisError("captured-argument detector fails its positive / negative example")
     r.ok("self-check", "bare parameter on one branch, copy on the other: recognised; unconditional copy: not reported")
     n_cls = 0
-    for rel in anchored_files(prop):
+    for rel in lint_files(prop, idx):
         try:
             mi = idx.module(rel)
         except AnalysisError:
